@@ -181,6 +181,8 @@ class SimOps:
         for n in circuit.topological_order():
             if n in interface_dict:
                 inp_idx = self.ppi_offset + interface_dict[n]
+                if len(n.ins) > 0 and n.ins[0] is not None and 'dff' not in n.kind.lower() and 'latch' not in n.kind.lower():
+                    inp_idx = n.ins[0].index  # a driven port that is also read (e.g. a bench-style output) passes its input on
                 if len(n.outs) > 0 and n.outs[0] is not None:  # first output of a PI/PPI
                     ops.append((BUF1, n.outs[0].index, inp_idx, self.zero_idx, self.zero_idx, self.zero_idx, *a_ctrl[n.outs[0]]))
                 if 'dff' in n.kind.lower():  # second output of DFF is inverted
@@ -275,7 +277,8 @@ class SimOps:
 
         # allocate and keep memory for PI/PPI, keep memory for PO/PPO (allocated later)
         for i, n in enumerate(circuit.s_nodes):
-            if len(n.outs) > 0:
+            driven_port = len(n.ins) > 0 and n.ins[0] is not None and 'dff' not in n.kind.lower() and 'latch' not in n.kind.lower()
+            if len(n.outs) > 0 and not driven_port:
                 self.c_locs[self.ppi_offset + i], self.c_caps[self.ppi_offset + i] = h.alloc(c_caps_min), c_caps_min
                 ref_count[self.ppi_offset + i] += 1
             if len(n.ins) > 0 and n.ins[0] is not None:
